@@ -415,6 +415,9 @@ func (e *wsExec) Do(o *Out, f []string) string {
 			}
 			time.Sleep(120 * time.Millisecond)
 			closed := map[int]bool{}
+			var returned []int
+			// (no other method of the set is called while a waiter may be inside Wait: it holds the
+			// set's mutex for as long as it waits)
 			for step := 0; step < 2; step++ {
 				k := (7*round + 31*step + 3) % n
 				for closed[k] {
@@ -441,12 +444,15 @@ func (e *wsExec) Do(o *Out, f []string) string {
 					if !closed[i] {
 						o.Fail("C20", "returned-open-channel", map[string]string{"waiters": "2"}, fmt.Sprintf("round %d: with two goroutines waiting on one set, Wait returned member #%d which is NOT closed (closed members: %v)", round, i, keysInt(closed)))
 					}
-					if ws.Has(c) {
-						o.Fail("C20", "returned-channel-still-in-set", map[string]string{"waiters": "2"}, fmt.Sprintf("round %d: returned member #%d is still in the set", round, i))
-					}
+					returned = append(returned, i)
 				}
 				if len(rr.got) == 0 && rr.err == nil {
 					o.Fail("C20", "empty-result-without-error", map[string]string{"waiters": "2"}, fmt.Sprintf("round %d: Wait returned no channel and no error", round))
+				}
+			}
+			for _, i := range returned {
+				if ws.Has(chans[i]) {
+					o.Fail("C20", "returned-channel-still-in-set", map[string]string{"waiters": "2"}, fmt.Sprintf("round %d: returned member #%d is still in the set", round, i))
 				}
 			}
 			for i, c := range chans {
